@@ -42,4 +42,74 @@ theorem tie_pushDir (c : Ctx) (d : Bytes) :
 theorem tie_push (c : Ctx) (p : Bytes) :
     c.push p = root_Push c p ∧ c.push p = dir_Push c p ∧ c.push p = prefix_Push c p := ⟨rfl, rfl, rfl⟩
 
+/-! ### the prefixed debugger (debug.go): what a log line carries -/
+
+/-- pushing a prefix stores it in brackets - on the root debugger and on a prefixed one alike -/
+theorem tie_debugger_Push (p : Bytes) : rootDebugger_Push p = bracket p ∧ prefixedDebugger_Push p = bracket p := by
+  constructor <;> simp [rootDebugger_Push, prefixedDebugger_Push, mkPrefixedDebugger, sprintf, sprintfAux, bracket]
+
+/-- `Log` through a chain of prefixed debuggers (stored prefixes, outermost first): each level
+    prepends its prefix to the operands and hands them to its parent -/
+def logThrough (stored : List Bytes) (v : List Bytes) : List Bytes := stored.foldr prefixedDebugger_prepend v
+
+/-- `Logf`: each level rewrites the format -/
+def logfThrough (stored : List Bytes) (fmt : Bytes) : Bytes := stored.foldr prefixedDebugger_prependFormat fmt
+
+theorem logThrough_eq (stored v : List Bytes) : logThrough stored v = stored ++ v := by
+  induction stored with
+  | nil => rfl
+  | cons p ps ih => simp [logThrough, prefixedDebugger_prepend, List.foldr] at *; exact ih
+
+theorem push_map (ps : List Bytes) : ps.map prefixedDebugger_Push = ps.map bracket := by
+  apply List.map_congr_left; intro p _; exact (tie_debugger_Push p).2
+
+/-- **the operands of a log line are the bracketed prefixes, outermost first, then the message** -/
+theorem tie_logLine (c : Ctx) (msg : Bytes) :
+    logLine c msg = joinWith [32] (logThrough (c.prefixes.map prefixedDebugger_Push) [msg]) := by
+  rw [push_map, logThrough_eq]; rfl
+
+theorem logfThrough_cons (p : Bytes) (ps : List Bytes) (fmt : Bytes) :
+    logfThrough (p :: ps) fmt = prefixedDebugger_prependFormat p (logfThrough ps fmt) := rfl
+
+/-- a format rewritten by at least one level starts with `[` (the bracket of the outermost of them) -/
+theorem logfThrough_bracket (ps : List Bytes) (hne : ps ≠ []) (fmt : Bytes) :
+    (logfThrough (ps.map bracket) fmt).head? = some 91 := by
+  cases ps with
+  | nil => exact absurd rfl hne
+  | cons p rest =>
+    simp only [List.map_cons, logfThrough_cons, prefixedDebugger_prependFormat, bracket]
+    split <;> simp
+
+/-- **`Logf`: the prefixes run together in front of the format, a blank before it unless it starts with `[`** -/
+theorem tie_logfLine (c : Ctx) (fmt : Bytes) :
+    logfLine c fmt = logfThrough (c.prefixes.map prefixedDebugger_Push) fmt := by
+  rw [push_map]
+  unfold logfLine
+  generalize c.prefixes = ps
+  induction ps with
+  | nil => rfl
+  | cons p rest ih =>
+    simp only [List.map_cons, logfThrough_cons, List.flatten_cons]
+    cases rest with
+    | nil =>
+      simp only [List.map_nil, List.flatten_nil, List.append_nil, logfThrough, List.foldr, prefixedDebugger_prependFormat, hasPrefix]
+      cases fmt with
+      | nil => simp [isPrefixOfB]
+      | cons a t =>
+        by_cases h : a = 91
+        · subst h; simp [isPrefixOfB]
+        · have : (91 == a) = false := by simp; omega
+          simp [isPrefixOfB, this, h]
+    | cons q rest' =>
+      have hb := logfThrough_bracket (q :: rest') (by simp) fmt
+      simp only at ih
+      rw [← ih]
+      simp only [prefixedDebugger_prependFormat, hasPrefix]
+      have hp : isPrefixOfB [91] ((List.map bracket (q :: rest')).flatten ++ if fmt.head? = some 91 then fmt else 32 :: fmt) = true := by
+        rw [ih]
+        cases hl : logfThrough (List.map bracket (q :: rest')) fmt with
+        | nil => rw [hl] at hb; simp at hb
+        | cons a t => rw [hl] at hb; simp at hb; subst hb; simp [isPrefixOfB]
+      simp [bracket, isPrefixOfB]
+
 end Pgs.C18
